@@ -11,7 +11,6 @@ import (
 	"context"
 	"fmt"
 	"io"
-	"os"
 	"sync"
 	"time"
 
@@ -404,9 +403,6 @@ func (l *countingLeaf) VirtualWrite(ctx context.Context, buf []byte, offset uint
 
 func (l *countingLeaf) VirtualSetAttributes(ctx context.Context, in *virtual.Attributes, requested virtual.AttributesMask, out *virtual.Attributes) virtual.Status {
 	park(ctx, parkIO)
-	if os.Getenv("NFS40_DEBUG") != "" {
-		fmt.Printf("DEBUG setattr leaf#%d %+v\n", l.st.idx, l.st)
-	}
 	return l.LinkableLeaf.VirtualSetAttributes(ctx, in, requested, out)
 }
 
